@@ -388,52 +388,105 @@ theorem C05_RMB_literal {x : Str} (hx : IsDecLit x) (hv : parseBase 10 x < 65536
 /-! ### symbols under FCB / FDB / RMB / ORG (since the repair of C2: evaluated through the symbol table) -/
 
 /-- `resolve_symbols` of a data directive whose operand is the name of an EQU constant: the operand becomes the
-constant (rebuilt from its magnitude: `NumericValue(symbol.int)`) -/
+constant, rebuilt from its SIGNED value (`NumericValue(symbol.signed())`, repair batch B2: before, the magnitude) -/
 theorem resolveOperand_pseudo_symbol {o : Operand} {row : InstrRow} {t : SymTab} {name : Str} {mo : Mode}
     {v : Nat} {h : Option Nat} {m : Mode} {neg : Bool} (hk : o.kind = .pseudo)
     (hm : row.mnemonic = "FCB" ∨ row.mnemonic = "FDB" ∨ row.mnemonic = "RMB" ∨ row.mnemonic = "ORG")
     (hv : o.value = .symbol name mo) (ht : t.get? name = some (.numeric v h m neg)) (hlt : v < 65536) :
     resolveOperand o row t =
-      .ok { o with value := .numeric v (if v < 256 then some 2 else none) (if v < 256 then .direct else .extended) false } := by
-  have a : ¬ ((v : Int) > 65535) := by omega
-  have b : ¬ ((v : Int) < 0) := by omega
+      .ok { o with value := .numeric v (if v < 256 then some 2 else none) (if v < 256 then .direct else .extended)
+                                (neg && decide (0 < v)) } := by
   have hmn : (row.mnemonic == "FCB" || row.mnemonic == "FDB" || row.mnemonic == "RMB" || row.mnemonic == "ORG") = true := by
     rcases hm with hm | hm | hm | hm <;> simp [hm]
   unfold resolveOperand
   rw [hk]
   simp only [hmn, if_true, hv, Value.isSymbol, Bool.true_or]
-  by_cases hlt' : v < 256 <;>
-    simp [Value.resolve, ht, Value.isAddress, Value.isNumeric, numericOfInt, a, b, initHint, postInit, hlt', Except.map]
+  cases neg
+  · have a : ¬ ((v : Int) > 65535) := by omega
+    have b : ¬ ((v : Int) < 0) := by omega
+    by_cases hlt' : v < 256 <;>
+      simp [Value.resolve, ht, Value.isAddress, Value.isNumeric, numericOfInt, a, b, initHint, postInit, hlt', Except.map]
+  · have a : ¬ (-(v : Int) > 65535) := by omega
+    have e : (-(v : Int)).natAbs = v := by omega
+    by_cases h0 : 0 < v
+    · by_cases hlt' : v < 256 <;>
+        simp [Value.resolve, ht, Value.isAddress, Value.isNumeric, numericOfInt, a, e, initHint, postInit, hlt', h0, Except.map]
+    · have hz : v = 0 := by omega
+      subst hz
+      simp [Value.resolve, ht, Value.isAddress, Value.isNumeric, numericOfInt, initHint, postInit, Except.map]
 
 /-- **C05, `FCB SYM`** with `SYM EQU v`, v < 256: the byte `v` (before the repair: `$00`) -/
 theorem C05_FCB_symbol {o : Operand} {row : InstrRow} {t : SymTab} {name : Str} {mo : Mode} {v : Nat}
-    {h : Option Nat} {m : Mode} {neg : Bool} (hrow : row ∈ Gen.instructions) (hm : row.mnemonic = "FCB")
-    (hk : o.kind = .pseudo) (hv : o.value = .symbol name mo) (ht : t.get? name = some (.numeric v h m neg))
+    {h : Option Nat} {m : Mode} (hrow : row ∈ Gen.instructions) (hm : row.mnemonic = "FCB")
+    (hk : o.kind = .pseudo) (hv : o.value = .symbol name mo) (ht : t.get? name = some (.numeric v h m false))
     (hlt : v < 256) : ∃ o', resolveOperand o row t = .ok o' ∧ o'.kind = .pseudo ∧ PseudoEmits o' row [v] :=
   ⟨_, resolveOperand_pseudo_symbol hk (Or.inl hm) hv ht (by omega), hk,
     C05_FCB_single (neg := false) hrow hm rfl (by simp [fitsByte]; omega)⟩
 
+/-- **C05, `FCB SYM`** with `SYM EQU -v`, 1 ≤ v ≤ 128: the two's complement byte (repair batch B2; before, the
+magnitude `v` was emitted) -/
+theorem C05_FCB_symbol_neg {o : Operand} {row : InstrRow} {t : SymTab} {name : Str} {mo : Mode} {v : Nat}
+    {h : Option Nat} {m : Mode} (hrow : row ∈ Gen.instructions) (hm : row.mnemonic = "FCB")
+    (hk : o.kind = .pseudo) (hv : o.value = .symbol name mo) (ht : t.get? name = some (.numeric v h m true))
+    (h1 : 1 ≤ v) (h2 : v ≤ 128) :
+    ∃ o', resolveOperand o row t = .ok o' ∧ o'.kind = .pseudo ∧ PseudoEmits o' row [256 - v] := by
+  have hr := resolveOperand_pseudo_symbol hk (Or.inl hm) hv ht (by omega)
+  have h0 : decide (0 < v) = true := by simp; omega
+  simp only [h0, Bool.and_true] at hr
+  refine ⟨_, hr, hk, ?_⟩
+  have hf : fitsByte v true = true := by simp [fitsByte]; omega
+  have e : [256 - v] = [byteField v true] := by simp [byteField]; omega
+  rw [e]
+  exact C05_FCB_single (neg := true) hrow hm rfl hf
+
 /-- **C05, `FDB SYM`** with `SYM EQU v`: the word `v` -/
 theorem C05_FDB_symbol {o : Operand} {row : InstrRow} {t : SymTab} {name : Str} {mo : Mode} {v : Nat}
-    {h : Option Nat} {m : Mode} {neg : Bool} (hrow : row ∈ Gen.instructions) (hm : row.mnemonic = "FDB")
-    (hk : o.kind = .pseudo) (hv : o.value = .symbol name mo) (ht : t.get? name = some (.numeric v h m neg))
+    {h : Option Nat} {m : Mode} (hrow : row ∈ Gen.instructions) (hm : row.mnemonic = "FDB")
+    (hk : o.kind = .pseudo) (hv : o.value = .symbol name mo) (ht : t.get? name = some (.numeric v h m false))
     (hlt : v < 65536) :
     ∃ o', resolveOperand o row t = .ok o' ∧ o'.kind = .pseudo ∧ PseudoEmits o' row [v / 256, v % 256] :=
   ⟨_, resolveOperand_pseudo_symbol hk (Or.inr (Or.inl hm)) hv ht hlt, hk,
     C05_FDB_single (neg := false) hrow hm rfl (by simp [fitsWord]; omega)⟩
 
+/-- **C05, `FDB SYM`** with `SYM EQU -v`, 1 ≤ v ≤ 32768: the two's complement word (`X EQU -5 ; FDB X` is `FF FB`) -/
+theorem C05_FDB_symbol_neg {o : Operand} {row : InstrRow} {t : SymTab} {name : Str} {mo : Mode} {v : Nat}
+    {h : Option Nat} {m : Mode} (hrow : row ∈ Gen.instructions) (hm : row.mnemonic = "FDB")
+    (hk : o.kind = .pseudo) (hv : o.value = .symbol name mo) (ht : t.get? name = some (.numeric v h m true))
+    (h1 : 1 ≤ v) (h2 : v ≤ 32768) :
+    ∃ o', resolveOperand o row t = .ok o' ∧ o'.kind = .pseudo ∧
+      PseudoEmits o' row [(65536 - v) / 256, (65536 - v) % 256] := by
+  have hr := resolveOperand_pseudo_symbol hk (Or.inr (Or.inl hm)) hv ht (by omega)
+  have h0 : decide (0 < v) = true := by simp; omega
+  simp only [h0, Bool.and_true] at hr
+  refine ⟨_, hr, hk, ?_⟩
+  have hf : fitsWord v true = true := by simp [fitsWord]; omega
+  have e : 65536 - v = wordField v true := by simp [wordField]; omega
+  rw [e]
+  exact C05_FDB_single (neg := true) hrow hm rfl hf
+
 /-- **C05, `RMB SYM`** with `SYM EQU v`: `v` bytes are reserved (before the repair: none) -/
 theorem C05_RMB_symbol {o : Operand} {row : InstrRow} {t : SymTab} {name : Str} {mo : Mode} {v : Nat}
-    {h : Option Nat} {m : Mode} {neg : Bool} (hrow : row ∈ Gen.instructions) (hm : row.mnemonic = "RMB")
-    (hk : o.kind = .pseudo) (hv : o.value = .symbol name mo) (ht : t.get? name = some (.numeric v h m neg))
+    {h : Option Nat} {m : Mode} (hrow : row ∈ Gen.instructions) (hm : row.mnemonic = "RMB")
+    (hk : o.kind = .pseudo) (hv : o.value = .symbol name mo) (ht : t.get? name = some (.numeric v h m false))
     (hlt : v < 65536) :
     ∃ o', resolveOperand o row t = .ok o' ∧ o'.kind = .pseudo ∧ PseudoEmits o' row (List.replicate v 0) :=
   ⟨_, resolveOperand_pseudo_symbol hk (Or.inr (Or.inr (Or.inl hm))) hv ht hlt, hk, C05_RMB hrow hm rfl⟩
 
+/-- **C05, `RMB SYM`** with `SYM EQU -v`, v ≥ 1: refused (repair batch B2; before, `v` bytes were reserved) -/
+theorem C05_RMB_symbol_neg_rejected {o : Operand} {row : InstrRow} {t : SymTab} {name : Str} {mo : Mode} {v : Nat}
+    {h : Option Nat} {m : Mode} (hm : row.mnemonic = "RMB")
+    (hk : o.kind = .pseudo) (hv : o.value = .symbol name mo) (ht : t.get? name = some (.numeric v h m true))
+    (h1 : 1 ≤ v) (hlt : v < 65536) :
+    ∃ o', resolveOperand o row t = .ok o' ∧ Rejects o' row := by
+  have hr := resolveOperand_pseudo_symbol hk (Or.inr (Or.inr (Or.inl hm))) hv ht hlt
+  have h0 : decide (0 < v) = true := by simp; omega
+  simp only [h0, Bool.and_true] at hr
+  exact ⟨_, hr, C05_RMB_neg_rejected hm rfl⟩
+
 /-- **C05, `ORG SYM`** with `SYM EQU v`: the origin is `v` -/
 theorem C05_ORG_symbol {o : Operand} {row : InstrRow} {t : SymTab} {name : Str} {mo : Mode} {v : Nat}
-    {h : Option Nat} {m : Mode} {neg : Bool} (hm : row.mnemonic = "ORG")
-    (hk : o.kind = .pseudo) (hv : o.value = .symbol name mo) (ht : t.get? name = some (.numeric v h m neg))
+    {h : Option Nat} {m : Mode} (hm : row.mnemonic = "ORG")
+    (hk : o.kind = .pseudo) (hv : o.value = .symbol name mo) (ht : t.get? name = some (.numeric v h m false))
     (hlt : v < 65536) :
     ∃ o', resolveOperand o row t = .ok o' ∧ ∃ h' m', translatePseudo o' row = .ok { address := .numeric v h' m' false } :=
   ⟨_, resolveOperand_pseudo_symbol hk (Or.inr (Or.inr (Or.inr hm))) hv ht hlt, _, _,
@@ -471,7 +524,7 @@ theorem resolveOperand_pseudo_other {o : Operand} {row : InstrRow} (t : SymTab) 
 /-- **C05, `FCC dtextd`** from the operand text, any delimiter character `d` -/
 theorem C05_FCC_text (d : Char) (body : Str) (hs : ∀ c ∈ body, c.toNat < 256) (t : SymTab := []) :
     LineEmits (d :: (body ++ [d])) fccRow (body.map Char.toNat) t :=
-  lineEmits_of (createOperand_fcc (row := fccRow) rfl rfl rfl rfl rfl rfl d body)
+  lineEmits_of (createOperand_fcc (row := fccRow) rfl rfl rfl rfl rfl rfl d body hs)
     (resolveOperand_pseudo_other t rfl (by decide) (by decide) (by decide) (by decide)) rfl (C05_FCC rfl rfl hs)
 
 /-! ### directives without data -/
@@ -513,6 +566,17 @@ theorem C05_ORG_rejected {o : Operand} {row : InstrRow} (hm : row.mnemonic = "OR
         subst hv
         exact Or.inl ⟨_, translatePseudo_ORG_neg hm hval⟩
       | _ => rw [hval] at hv; simp [Value.isNegative] at hv
+
+/-- **C05, `ORG SYM`** with `SYM EQU -v`, v ≥ 1: refused, "not an address" -/
+theorem C05_ORG_symbol_neg_rejected {o : Operand} {row : InstrRow} {t : SymTab} {name : Str} {mo : Mode} {v : Nat}
+    {h : Option Nat} {m : Mode} (hm : row.mnemonic = "ORG")
+    (hk : o.kind = .pseudo) (hv : o.value = .symbol name mo) (ht : t.get? name = some (.numeric v h m true))
+    (h1 : 1 ≤ v) (hlt : v < 65536) :
+    ∃ o', resolveOperand o row t = .ok o' ∧ Rejects o' row := by
+  have hr := resolveOperand_pseudo_symbol hk (Or.inr (Or.inr (Or.inr hm))) hv ht hlt
+  have h0 : decide (0 < v) = true := by simp; omega
+  simp only [h0, Bool.and_true] at hr
+  exact ⟨_, hr, C05_ORG_rejected hm (Or.inr rfl)⟩
 
 /-- the six mnemonics without data and without an address -/
 theorem C05_no_data_mnemonics {o : Operand} {row : InstrRow}
@@ -704,6 +768,16 @@ theorem C05_program_negatives (fs : Files) :
     (lines := prog [" FCB -1\n", " FDB -1\n", " FCB 1,-2\n", " FDB 1,-1\n"]) (by decide +kernel) fs
   exact ⟨a, ha, by simpa using hc⟩
 
+/-- a NEGATIVE EQU constant under the data directives (repair batch B2): `X EQU -5`, `FDB X` is `FF FB`, `FCB X` is
+`FB`; `RMB X` and `ORG X` are refused -/
+theorem C05_program_negative_symbol (fs : Files) :
+    (∃ a, assemble fs (prog ["X EQU -5\n", " FDB X\n", " FCB X\n"]) = .ok a ∧ a.image = some [0xFF, 0xFB, 0xFB]) ∧
+    assemble fs (prog ["X EQU -5\n", " RMB X\n"]) = .diag ∧ assemble fs (prog ["X EQU -5\n", " ORG X\n"]) = .diag := by
+  refine ⟨?_, progDiag_sound (by decide +kernel) fs, progDiag_sound (by decide +kernel) fs⟩
+  obtain ⟨a, ha, hc⟩ := progCheck_sound (check := fun a => a.image == some [0xFF, 0xFB, 0xFB])
+    (lines := prog ["X EQU -5\n", " FDB X\n", " FCB X\n"]) (by decide +kernel) fs
+  exact ⟨a, ha, by simpa using hc⟩
+
 /-- what is refused, as programs -/
 theorem C05_program_rejected (fs : Files) :
     assemble fs (prog [" FCB 300\n"]) = .diag ∧ assemble fs (prog [" FCB -129\n"]) = .diag ∧
@@ -842,5 +916,7 @@ section axioms
 open CoCo.Props
 #print axioms C05_full
 #print axioms C05_FCB_symbol
+#print axioms C05_FDB_symbol_neg
+#print axioms C05_program_negative_symbol
 #print axioms C05_program_FDB_label
 end axioms
